@@ -376,6 +376,19 @@ class Sym:
             if k in self.state:
                 return self.state[k]
             return Poly.atom(k + (self.suffix(k) if self.suffix and "@v" not in k else ""))
+        if isinstance(e, ast.BoolOp) and not all(isinstance(v, (ast.Compare, ast.BoolOp)) or (isinstance(v, ast.UnaryOp) and isinstance(v.op, ast.Not)) for v in e.values):
+            # value context: `a or b` is `a if a else b`, `a and b` is `b if a else a` (right-folded)
+            vals = list(e.values)
+            acc = self.ev(vals[-1], at, depth + 1)
+            for v in reversed(vals[:-1]):
+                c_ = self.cmp(v, at, depth + 1)
+                pv = self.ev(v, at, depth + 1)
+                d_ = self.decide(c_) if self.decide is not None else None
+                if isinstance(e.op, ast.Or):
+                    acc = (pv if d_ else acc) if d_ is not None else ite_atom(c_, pv, acc)
+                else:
+                    acc = (acc if d_ else pv) if d_ is not None else ite_atom(c_, acc, pv)
+            return acc
         if isinstance(e, (ast.Compare, ast.BoolOp)):
             c_ = self.cmp(e, at, depth + 1)
             if self.decide is not None:
@@ -611,6 +624,30 @@ class Sym:
                 return Poly.atom(f"abs({p.key()})")
             if fn.id in TRANSPARENT_CALLS and len(e.args) == 1:
                 return self.ev(e.args[0], at, depth + 1)
+        if isinstance(fn, ast.Attribute) and fn.attr == "format" and isinstance(fn.value, ast.Constant) and isinstance(fn.value.value, str) and not any(isinstance(a, ast.Starred) for a in e.args) \
+                and not any(k.arg is None for k in e.keywords):
+            import string
+            try:
+                fields = list(string.Formatter().parse(fn.value.value))
+            except ValueError:
+                fields = None
+            if fields is not None:
+                kw = {k.arg: k.value for k in e.keywords}
+                parts, auto, ok_ = [], 0, True
+                for lit, name, spec_, conv in fields:
+                    if lit:
+                        parts.append(repr(lit))
+                    if name is None:
+                        continue
+                    if name == "":
+                        name, auto = str(auto), auto + 1
+                    src = kw.get(name) if not name.isdigit() else (e.args[int(name)] if int(name) < len(e.args) else None)
+                    if src is None:
+                        ok_ = False
+                        break
+                    parts.append(self.canon(src, at, depth + 1) + ("!" + conv if conv else "") + (":" + repr(spec_) if spec_ else ""))
+                if ok_:
+                    return Poly.atom("fstr(" + ", ".join(parts) + ")")
         if self.inliner is not None and depth < self.max_depth:
             r = self.inliner(self, e, None, at, depth)
             if r is not None:
@@ -659,7 +696,16 @@ class Sym:
             finally:
                 self.scope.pop()
         if isinstance(e, ast.JoinedStr):
-            return "fstr"
+            # the text an f-string produces: literal pieces and formatted values (with their conversion / format spec) in order;
+            # `"{a}{b}".format(a=x, b=y)` is given the same form by _call
+            parts = []
+            for v in e.values:
+                if isinstance(v, ast.Constant):
+                    parts.append(repr(v.value))
+                elif isinstance(v, ast.FormattedValue):
+                    spec_ = ("!" + chr(v.conversion) if v.conversion and v.conversion != -1 else "") + (":" + self._generic(v.format_spec, at, depth + 1) if v.format_spec is not None else "")
+                    parts.append(self.canon(v.value, at, depth + 1) + spec_)
+            return "fstr(" + ", ".join(parts) + ")"
         if isinstance(e, ast.Starred):
             return "*" + self.canon(e.value, at, depth + 1)
         if isinstance(e, ast.Slice):
